@@ -6,6 +6,8 @@ Expressions are complete and bracket-balanced by construction, which is what
 makes the by-construction expectation of C06/C20 sound (DESIGN.md §3 C06).
 """
 import html
+import html.entities
+import re
 
 
 class Obj:
@@ -39,7 +41,7 @@ def make_env():
 
 
 STR_BODIES = ['}', '{', '${', '$', '{}', '}}', '}${', 'a}b', '$$', ' ', 'x', '{0}', '${v}', '&', '<', '>',
-              'é', '$${', ';', '\\\\', ':']
+              'é', '$${', ';', '\\\\', ':', '&copy=2', '&reg', '?a=1&currency=2', '&lt', '\x96', '&notin ', '&amp=']
 
 
 def gen_string_literal(rng, avoid=''):
@@ -136,9 +138,15 @@ def encode_expr_for_markup(rng, expr, quote=None):
     '>' and quotes optionally.  The property says entities are decoded before
     evaluation, so the oracle evaluates the *original* expr."""
     out = []
-    for ch in expr:
+    for i, ch in enumerate(expr):
         if ch == '&':
-            out.append('&amp;')
+            # a '&' that does not start a terminated reference may also stand as it is
+            if rng.random() < .4 and not re.match(r'#?\w{1,8};', expr[i + 1:i + 11]):
+                out.append('&')
+            else:
+                out.append('&amp;')
+        elif ch == '\x96':
+            out.append(rng.choice(['\x96', '&#150;', '&#x96;']))
         elif ch == '<':
             out.append(rng.choice(['&lt;', '&#60;']))
         elif ch == '>':
@@ -150,6 +158,21 @@ def encode_expr_for_markup(rng, expr, quote=None):
         else:
             out.append(ch)
     return ''.join(out)
+
+
+def decode_terminated(s):
+    """Decode character references that are terminated by ';' (and only those): the documented rule for
+    the text of an expression."""
+    return re.sub(r'&(#?)(x?)(\d{1,5}|\w{1,8});', lambda m: html.unescape(m.group()) if (
+        m.group(1) or m.group(3) in html.entities.name2codepoint or m.group(3) == 'apos') and not (
+        m.group(1) and 128 <= _num(m) <= 159) else (chr(_num(m)) if m.group(1) else m.group()), s)
+
+
+def _num(m):
+    try:
+        return int(m.group(3), 16 if m.group(2) else 10)
+    except ValueError:
+        return -1
 
 
 def undouble(lit):
